@@ -50,8 +50,12 @@ def _collapse_invariants(
     if invariants_dunder in namespace:
         invariants.extend(namespace[invariants_dunder])
 
-    # Change the final invariants in the namespace
-    if invariants:
+    # Change the final invariants in the namespace.
+    #
+    # The class must own its list as soon as one of the bases defines one, even if the list is empty. Otherwise,
+    # an invariant decorator applied to the class would find the list of the base class through the attribute
+    # look-up and append the invariant to the base class.
+    if invariants or any(hasattr(base, invariants_dunder) for base in bases):
         namespace[invariants_dunder] = invariants
 
     # endregion
